@@ -44,7 +44,8 @@ def cases(tier, seed):
                    twice=rnd.random() < 0.5,
                    in_file=rnd.random() < 0.4, mid=rnd.choice([0, 1, 255, 65535, rnd.randrange(65536)]),
                    stall=rnd.random() < 0.2, maxlen=rnd.choice([64, 256, 16384]),
-                   dest=rnd.choice(['real', 'real', 'never-answers-release']),
+                   dest=rnd.choice(['real', 'real', 'real', 'never-answers-release', 'unknown',
+                                    'refused']),
                    seed=seed * 100003 + i)
 
 
@@ -255,9 +256,13 @@ def _move(case):
                      'detail': '%s\ncase %r\nhandler errors %r' % (detail, case,
                                                                    world.handler_errors[:1])})
     try:
-        n = case['n']
+        # destination unknown to the application: it answers like the library's default
+        # on_receive_move (no remote AE, zero operations, empty iterator)
+        unknown = case.get('dest') == 'unknown'
+        n = 0 if unknown else case['n']
         insts = [_inst(rnd, k, rnd.choice([CT, MR])) for k in range(n)]
         stored = []        # at the destination, in arrival order
+        dest_conns = []
         moves = []
 
         class Dest(applicationentity.AE):
@@ -284,8 +289,14 @@ def _move(case):
         dest.timeout = 300
         dest.add_scp(store_mem)
         slow_release = case.get('dest') == 'never-answers-release'
-        if not slow_release:
+        refused = case.get('dest') == 'refused'
+        if refused:
+            pass            # nobody listens at DEST: the sub-association's connect() is refused
+        elif not slow_release:
             world.serve_ae(dest, DEST)
+            inner_cb, inner_opts = world.net.listeners[DEST]
+            world.net.listeners[DEST] = (
+                lambda sock, caddr: (dest_conns.append(1), inner_cb(sock, caddr))[1], inner_opts)
         else:
             # a foreign destination that performs and answers every C-STORE but never answers
             # the A-RELEASE-RQ of the sub-association
@@ -325,6 +336,8 @@ def _move(case):
         class Srv(applicationentity.AE):
             def on_receive_move(self, context, ds, destination):
                 moves.append(str(destination))
+                if unknown:
+                    return applicationentity.AE.on_receive_move(self, context, ds, destination)
 
                 def gen():
                     for d in insts:
@@ -380,11 +393,38 @@ def _move(case):
         pend = [m for m in rsps if m['fields'].get(0x0900) in (0xFF00, 0xFF01)]
         final = [m for m in rsps if m['fields'].get(0x0900) not in (0xFF00, 0xFF01)]
         want = [str(d.SOPInstanceUID) for d in insts]
+        if refused and n > 0:
+            # fault configuration: the designated destination refuses the connection.  Nothing
+            # can be performed, so nothing may be reported as performed, a conclusion (if any)
+            # must not claim success, and the requesting user must not be left waiting: it
+            # gets a final response, an A-ABORT or the end of the connection in bounded time.
+            if stored or other_hits:
+                v('stored-although-destination-refused', repr((stored, other_hits)))
+            if pend:
+                v('progress-reported-without-sub-operation dest=refused',
+                  '%d pending responses' % len(pend))
+            if len(final) > 1 or 'after_final' in out:
+                v('not-exactly-one-final-response dest=refused', '%d final' % len(final))
+            for m in final:
+                if m['fields'].get(0x0900) == 0x0000 or m['fields'].get(0x1021) not in (
+                        0, None, ''):
+                    v('success-reported-although-destination-refused',
+                      repr(sorted(m['fields'].items())))
+            if not final and out.get('instead') == 'timeout':
+                v('move-user-left-waiting dest=refused',
+                  'no final response, no abort and no close within 200 s')
+            live = [t for t in world.sim.tasks if t.role in ('dul', 'acceptor') and not t.done]
+            if live:
+                v('threads-left-running dest=refused', repr([t.name for t in live]))
+            return _fin(world, viol, case, {'pending': len(pend), 'final': len(final),
+                                            'instead': repr(out.get('instead'))[:60]})
         if stored != want:
             v('instances-not-stored-once-in-order n=%s' % ('0' if n == 0 else '>0'),
               'supplied %r\nstored at destination %r' % (want, stored))
         if other_hits:
             v('stored-at-wrong-destination', '')
+        if unknown and dest_conns:
+            v('association-requested-for-unknown-destination', '%d connections' % len(dest_conns))
         if len(final) != 1 or 'after_final' in out:
             v('not-exactly-one-final-response n=%s' % ('0' if n == 0 else '>0'),
               '%d final responses, after final: %r, instead: %r' % (
